@@ -159,6 +159,25 @@ def run_cases(mod, cases, use_driver=True, per_case_timeout=20):
         finally:
             signal.alarm(0)
         got.append(g)
+    # second evaluation: every 5th case is put to the implementation again after all the others have run.
+    # The API under test is a function of its arguments and of the history of the object it is called on -
+    # not of what else happened in the process - so the answer must be the same (caches with the wrong key,
+    # shared mutable results and class-level state written by other calls show up here).
+    if len(cases) > 1 and os.environ.get('VERIF_RERUN', '1') != '0':
+        for i in range(0, len(cases), 5):
+            if got[i].startswith('!timeout'):
+                continue
+            signal.alarm(per_case_timeout)
+            try:
+                g2 = mod.impl(cases[i])
+            except Timeout:
+                g2 = got[i]
+            except Exception as e:
+                g2 = '!harness:' + type(e).__name__ + ':' + str(e)[:80]
+            finally:
+                signal.alarm(0)
+            if g2 != got[i]:
+                got[i] = '!harness:unstable: asked again after the other cases of this run, the implementation answered %s; first answer %s' % (g2[:200], got[i][:200])
     model = [None] * len(cases)
     if use_driver:
         idx = [i for i, c in enumerate(cases) if c.line is not None]
